@@ -16,15 +16,15 @@ DEMO=$(ls "$OUT"/*_test.go | head -1)
 DEMOFN=$(grep -o 'func TestDemo[A-Za-z0-9_]*' "$DEMO" | head -1 | sed 's/func //')
 # without the patch: the demo passes
 cp "$DEMO" "$WT/$PKG/zz_demo_test.go"
-(cd "$WT" && go test -vet=off -count=1 -run "$DEMOFN" ./$PKG/ >/tmp/seed_demo_clean.log 2>&1); echo "demo on unchanged tree: exit=$? (want 0)"
+(cd "$WT" && go test -vet=off -count=1 -run "$DEMOFN" ./$PKG/ >/tmp/seed_${NAME}_demo_clean.log 2>&1); echo "demo on unchanged tree: exit=$? (want 0)"
 rm "$WT/$PKG/zz_demo_test.go"
 git -C "$WT" apply "$OUT/patch.diff" || { echo "patch does not apply"; exit 3; }
-(cd "$WT" && go build ./... && go test -vet=off -count=1 ./... >/tmp/seed_suite.log 2>&1); echo "suite with patch: exit=$? (want 0)"
+(cd "$WT" && go build ./... && go test -vet=off -count=1 ./... >/tmp/seed_${NAME}_suite.log 2>&1); echo "suite with patch: exit=$? (want 0)"
 cp "$DEMO" "$WT/$PKG/zz_demo_test.go"
-(cd "$WT" && go test -vet=off -count=1 -run "$DEMOFN" ./$PKG/ >/tmp/seed_demo_patched.log 2>&1); echo "demo with patch: exit=$? (want 1)"
+(cd "$WT" && go test -vet=off -count=1 -run "$DEMOFN" ./$PKG/ >/tmp/seed_${NAME}_demo_patched.log 2>&1); echo "demo with patch: exit=$? (want 1)"
 rm "$WT/$PKG/zz_demo_test.go"
 for id in "$@"; do
-  (cd /verif && VERIF_REPO="$WT" ./check "$id" >/tmp/seed_check_$id.log 2>&1); rc=$?
-  echo "check $id on seeded tree: exit=$rc  $(grep -c '^VIOLATION' /tmp/seed_check_$id.log) VIOLATION lines; first: $(grep -m1 '^VIOLATION' /tmp/seed_check_$id.log | cut -c1-160)"
-  [ $rc -eq 2 ] && tail -5 /tmp/seed_check_$id.log
+  (cd /verif && VERIF_REPO="$WT" ./check "$id" >/tmp/seed_${NAME}_check_$id.log 2>&1); rc=$?
+  echo "check $id on seeded tree: exit=$rc  $(grep -c '^VIOLATION' /tmp/seed_${NAME}_check_$id.log) VIOLATION lines; first: $(grep -m1 '^VIOLATION' /tmp/seed_${NAME}_check_$id.log | cut -c1-160)"
+  [ $rc -eq 2 ] && tail -5 /tmp/seed_${NAME}_check_$id.log
 done
